@@ -96,7 +96,7 @@ func (s *streamHTTP) writeMsg(c Codec, b []byte, contentType string) (int, error
 	if s.method.desc.IsStreamingServer() {
 		codec, ok := c.(StreamCodec)
 		if !ok {
-			return count, fmt.Errorf("codec %s does not support streaming", codec.Name())
+			return count, fmt.Errorf("codec %s does not support streaming", c.Name())
 		}
 		if len(b) > s.opts.maxSendMessageSize {
 			return count, fmt.Errorf("max send message size reached")
@@ -177,7 +177,7 @@ func (s *streamHTTP) readMsg(c Codec, b []byte) (int, []byte, error) {
 	if s.method.desc.IsStreamingClient() {
 		codec, ok := c.(StreamCodec)
 		if !ok {
-			return count, nil, fmt.Errorf("codec %q does not support streaming", codec.Name())
+			return count, nil, fmt.Errorf("codec %q does not support streaming", c.Name())
 		}
 		b = append(b, s.rbuf...)
 		b, n, err := codec.ReadNext(b, s.r, s.opts.maxReceiveMessageSize)
